@@ -38,6 +38,8 @@ import (
 // (fail_timeout >> try_duration) or are not recorded at all with try_duration = 0.
 
 type c05RetryTransport struct {
+	start  *time.Time
+	stamps *[]time.Duration
 	idx    int
 	script string
 	calls  int
@@ -76,6 +78,9 @@ func (t *c05RetryTransport) RoundTrip(req *http.Request) (*http.Response, error)
 		}
 	}
 	*t.log = append(*t.log, fmt.Sprintf("%d:%s", t.idx, body))
+	if t.start != nil {
+		*t.stamps = append(*t.stamps, time.Since(*t.start))
+	}
 	switch o {
 	case 'K':
 		return &http.Response{StatusCode: 200, Proto: "HTTP/1.1", ProtoMajor: 1, ProtoMinor: 1, Header: http.Header{},
@@ -88,7 +93,47 @@ func (t *c05RetryTransport) RoundTrip(req *http.Request) (*http.Response, error)
 	return nil, errors.New("scripted backend failure")
 }
 
+// Cases with a try_interval of 150 ms or more probe the timing side condition with the real clock. Every delay
+// in the loop is a sleep of try_interval and attempts are instantaneous, so every attempt should start a little
+// after a multiple of try_interval; a run in which one starts more than 60 ms late (machine under load) is not
+// a faithful replay of the abstract-time model and is repeated (up to five times).
 func c05RetryEval(f []string) (string, []string) {
+	out, tags, stamps := c05RetryOnce(f)
+	if len(f) != 11 {
+		return out, tags
+	}
+	interval, _ := strconv.Atoi(f[7])
+	if interval < 150 {
+		return out, tags
+	}
+	for try := 0; try < 5; try++ {
+		late := false
+		for _, st := range stamps {
+			if st%(time.Duration(interval)*time.Millisecond) > 60*time.Millisecond {
+				late = true
+			}
+		}
+		if !late {
+			return out, append(tags, "timing-boundary")
+		}
+		out, tags, stamps = c05RetryOnce(f)
+	}
+	return "timing-unreliable\t" + out, append(tags, "timing-unreliable")
+}
+
+func c05RetryOnce(f []string) (string, []string, []time.Duration) {
+	out, tags, stamps := c05RetryRun(f)
+	return out, tags, stamps
+}
+
+func c05RetryRun(f []string) (string, []string, []time.Duration) {
+	var stamps []time.Duration
+	start := time.Now()
+	out, tags := c05RetryEvalAt(f, &start, &stamps)
+	return out, tags, stamps
+}
+
+func c05RetryEvalAt(f []string, start *time.Time, stamps *[]time.Duration) (string, []string) {
 	if len(f) != 11 {
 		return "bad-case", nil
 	}
@@ -134,7 +179,7 @@ func c05RetryEval(f []string) (string, []string) {
 		if strings.ContainsAny(p[2], "FR") {
 			anyFail = true
 		}
-		pool[i].ReverseProxy.Transport = &c05RetryTransport{idx: i, script: p[2], want: body, mu: &mu, log: &log}
+		pool[i].ReverseProxy.Transport = &c05RetryTransport{idx: i, script: p[2], want: body, mu: &mu, log: &log, start: start, stamps: stamps}
 	}
 	robin, _ := strconv.ParseUint(robinS, 10, 32)
 	key := hx.UnHS(keyS)
@@ -173,6 +218,7 @@ func c05RetryEval(f []string) (string, []string) {
 	p := proxy.Proxy{Next: httpserver.EmptyNext, Upstreams: []proxy.Upstream{up}}
 	// a loop that never gives up must not hang the check
 	done := make(chan int, 1)
+	*start = time.Now()
 	go func() {
 		st, _ := p.ServeHTTP(httptest.NewRecorder(), req)
 		done <- st
@@ -327,6 +373,27 @@ func c05RetryGen(g *hx.Gen) {
 				}
 			}
 		}
+	}
+	// 2c. the timing side condition (RetrySpec.budget: max_fails * #other backends * try_interval < try_duration <= fail_timeout),
+	//     probed with the real clock at generous margins (>= 100 ms between a decision point and the nearest event):
+	//     inside the budget the healthy backend is reached; a window shorter than one sleep gives up with a healthy
+	//     backend still untried; a fail_timeout shorter than the sleep lets `first` come back to the failing backend until
+	//     the window is over; just outside the (sufficient, not necessary) budget the request may still be answered
+	timing := []struct {
+		hosts   []string
+		d, i, f int
+	}{
+		{[]string{"0/0/F", "0/0/F", "0/0/K"}, 700, 200, 600000}, // inside: 2*200 < 700: answered by backend 2 at t = 400
+		{[]string{"0/0/F", "0/0/F", "0/0/K"}, 100, 250, 600000}, // window shorter than one sleep: gives up at t = 250 after two failures
+		{[]string{"0/0/F", "0/0/K"}, 700, 200, 80},              // fail_timeout < try_interval: `first` retries backend 0 at 0,200,400,600,800 -> 502
+		{[]string{"0/0/F", "0/0/F", "0/0/K"}, 300, 200, 600000}, // outside the budget (400 >= 300) yet answered at t = 400 (checked at t = 200 < 300)
+		{[]string{"0/0/F", "0/0/K"}, 100, 200, 600000},          // inside (200 >= 100 is outside!) -> one failure at 0 (< 100), sleep, backend 1 answers
+	}
+	for ti, tc := range timing {
+		if !g.Thorough() && ti >= 4 {
+			continue
+		}
+		emitF("cl", "first", 0, "", tc.hosts, 0, 1, tc.d, tc.i, tc.f, 100)
 	}
 	// 3. client cancellation and over-long bodies end the loop at once
 	for _, sc := range []string{"C", "T", "FC", "RT"} {
